@@ -160,7 +160,27 @@ def make_cases(rng, deep):
                 c["context"] = "near-miss unknown word"
             c = case(w, aliases=[w])
             c["context"] = "defined ModelAlias with a near-miss name"
+    # 5. the same contexts once more with names registered: registration must not change how any *other* word is read
+    #    (extending neighbours stay labels, near-miss words stay unknown, prefix pairs keep their own names)
+    regs = [["MY_MODEL"], ["NEW_MODEL", "X"], ["PHSP_V2", "A-B-C"], ["Z9"], ["SVS_CP_ISO_2", "CB3PI-MPP-X"]]
+    base = [c for c in cases if c["listed"] is models]
+    step = 1 if deep else max(1, len(base) // 700)
+    for j, c0 in enumerate(base[(seed_off(rng) % step)::step]):
+        reg = regs[j % len(regs)]
+        listed = models + reg
+        words = c0["daughters"] + [x for x in c0["params"] if not _isnum(x)] + c0.get("alias_labels", []) + c0.get("defines", [])
+        if c0["word"] in reg or any(not is_label(x, listed) for x in words):
+            continue
+        c = copy.deepcopy(c0)
+        c["listed"] = listed
+        c["reg_mode"] = ["normal", "after_grammar", "after_grammar_info", "parse_twice", "after_failed_parse"][j % 5]
+        c["context"] = c0["context"] + " + registered " + ",".join(reg) + " (" + c["reg_mode"] + ")"
+        cases.append(c)
     return cases
+
+
+def seed_off(rng):
+    return rng.randrange(1 << 16)
 
 
 @chunked()
@@ -206,11 +226,12 @@ def run(tier, seed, replay_path=None):
             cases = [c for c in cases if c["word"] == rc["word"] and c["context"] == rc["context"]][:3] or cases[:1]
         elif not deep and len(cases) > 2500:
             # keep all prefix-pair and registered-name cases, rotate through the rest
-            core = [c for c in cases if c["context"].startswith(("prefix pair", "registered", "published "))]
-            rest = [c for c in cases if c not in core]
+            core = [c for c in cases if c["context"].startswith(("prefix pair", "registered", "published ")) and " + registered " not in c["context"]]
+            plus = [c for c in cases if " + registered " in c["context"]]
+            rest = [c for c in cases if c not in core and c not in plus]
             k = len(rest)
             off, step = seed % k, max(1, k // 1500)
-            cases = core[:1500] + [rest[(off + i * step) % k] for i in range(1500)]
+            cases = core[:1500] + plus[:800] + [rest[(off + i * step) % k] for i in range(1500)]
         else:
             o.exhaustive = True
         built = pmap(observe, cases)
